@@ -186,6 +186,227 @@ def fusion_case(r, nmax):
     return spec, chans, ds, X[idx]
 
 
+# ---------------------------------------------------------------- modules that were used before being wrapped
+# The property quantifies over configurations: a host (FusionART / FALCON channel, SimpleARTMAP / ARTMAP side,
+# DualVigilanceART / TopoART base module) is handed a module *object*, and that object may have a past: it was
+# fitted / partially fitted / validated / prepared on its own, or it served in another network, on data of the same
+# or of ANOTHER width.  The library may refuse such a module (an exception at construction or at training: nothing
+# to check).  If the host accepts it and trains, the trained categories are judged exactly like those of a fresh
+# module, for the width the host trained on: exact summary of the members, growth only, size bound (|w| >= rho*d).
+
+PREUSE = ["fit", "partial_fit", "validate_data", "prepare_data", "was-FusionART-channel", "was-SimpleARTMAP-side",
+          "was-DualVigilanceART-base", "fit-then-validate"]
+
+
+# pasts after which module.labels_ holds the module's own category ids (the property's "where labels_ names the
+# category"): a DualVigilanceART writes ITS cluster ids (map[category]) into base_module.labels_, and a FusionART
+# keeps the labels on the network, so a module that goes on learning after such a past has no record of who the
+# members of its old categories are: exact summary not applicable, growth and size bound still are
+PAST_LABELS_NAME_CATEGORIES = ("fit", "partial_fit", "fit-then-validate", "was-SimpleARTMAP-side")
+
+
+def raw_rows(r, cls, n, d):
+    """raw (un-prepared) rows for `prepare_data`"""
+    return gen.binary_rows(r, n, d) if cls == "ART1" else gen.grid_rows(r, n, d)
+
+
+def pre_use(r, cls, m, how, d_pre, nmax):
+    """give the elementary module `m` a past on data of raw dimension d_pre; returns (log entry, rows it was TRAINED
+    on or None): only public calls"""
+    from ..impl import FusionART, SimpleARTMAP, DualVigilanceART, FuzzyART
+    n = r.randint(2, max(2, nmax // 2))
+    Xp = specs.elem_data(r, cls, n, d_pre, style=r.choice(["dups", "coarse", "blobs", "uniform"]))
+    trained = None
+    with quiet():
+        if how == "fit":
+            m.fit(Xp)
+            trained = Xp
+        elif how == "partial_fit":
+            for Xb in gen.split(Xp, gen.compositions(r, n)):
+                m.partial_fit(Xb)
+            trained = Xp
+        elif how == "validate_data":
+            m.validate_data(Xp)
+        elif how == "prepare_data":
+            Xp = raw_rows(r, cls, n, d_pre)
+            m.prepare_data(Xp)
+        elif how == "fit-then-validate":
+            m.fit(Xp)
+            m.validate_data(Xp[:1])
+            trained = Xp
+        elif how == "was-FusionART-channel":
+            other = FuzzyART(rho=0.5, alpha=2.0 ** -10, beta=1.0)
+            Xo = specs.elem_data(r, "FuzzyART", n, 1)
+            first = r.random() < 0.5
+            old = FusionART([m, other] if first else [other, m], gamma_values=[0.5, 0.5],
+                            channel_dims=[Xp.shape[1], 2] if first else [2, Xp.shape[1]])
+            old.fit(np.hstack([Xp, Xo] if first else [Xo, Xp]))
+            trained = Xp
+        elif how == "was-SimpleARTMAP-side":
+            SimpleARTMAP(m).fit(Xp, gen.labels(r, n, 3))
+            trained = Xp
+        elif how == "was-DualVigilanceART-base":
+            if not m.params.get("rho", 0.0) > 0.0:
+                raise ValueError("no lower vigilance below rho")
+            DualVigilanceART(m, rho_lower_bound=0.0).fit(Xp)
+            trained = Xp
+        else:
+            raise KeyError(how)
+    return {"how": how, "d_pre": d_pre, "X_pre": np.asarray(Xp).tolist()}, trained
+
+
+def preused_modules(ctx, nmax):
+    from ..impl import FusionART, FALCON, SimpleARTMAP, ARTMAP, DualVigilanceART, TopoART
+    cov = ctx.cov
+    hosts = ["FusionART", "FusionART", "FALCON", "SimpleARTMAP", "ARTMAP.A", "ARTMAP.B", "DualVigilanceART", "TopoART"]
+    for i in range(ctx.scale(240, 4000)):
+        r = gen.rng_for(ctx.seed, "C02-preused", i)
+        hostk = hosts[i % len(hosts)]
+        if hostk in ("DualVigilanceART", "TopoART"):
+            cls = r.choice(["FuzzyART", "FuzzyART", "HypersphereART", "EllipsoidART"])
+        else:
+            cls = r.choice(["FuzzyART", "FuzzyART", "FuzzyART", "ART1", "HypersphereART", "GaussianART"])
+        d = r.randint(1, 3)
+        # the past: mostly another width (narrower and wider), sometimes the same one
+        d_pre = r.choice([k for k in (1, 2, 3, 4) if k != d]) if r.random() < 0.7 else d
+        how = r.choice(PREUSE)
+        n = r.randint(2, nmax)
+        # the specification is drawn for the width the module will be TRAINED on by the host
+        spec = specs.elem_spec(r, cls, specs.width(cls, d) if cls != "FuzzyART" else d)
+        if cls in ("FuzzyART", "HypersphereART") and r.random() < 0.7:
+            spec["beta"] = 1.0
+        if cls in ("GaussianART", "BayesianART") and d_pre != d:
+            # sigma_init / cov_init carry the width: the past of such a module has the host's width
+            d_pre = d
+        mode = r.choice(MODES)
+        X = specs.elem_data(r, cls, n, d, style=r.choice(["dups", "coarse", "blobs", "uniform"]))
+        entry = r.choice(["fit", "partial_fit"])
+        parts = gen.compositions(r, n) if entry == "partial_fit" else [n]
+        rep = {"host": hostk, "class": cls, "spec": spec, "d": d, "X": X.tolist(), "mode": mode, "entry": entry, "batches": parts}
+        tag = f"{hostk}<-{how}:" + ("same-width" if d_pre == d else "narrower-past" if d_pre < d else "wider-past")
+        # ---- the module's past
+        try:
+            m = make(spec)
+            log, trained = pre_use(r, cls, m, how, d_pre, nmax)
+            rep["pre_use"] = log
+        except Exception as e:
+            cov.hit(f"preused:pre-use-raised:{cls}:{how}:{exc_enum(e)}")
+            continue
+        if len(getattr(m, "W", [])) > 0:
+            cov.hit("preused:past-left-categories")
+        # ---- wrap it
+        others = {}
+        try:
+            with quiet():
+                if hostk in ("FusionART", "FALCON"):
+                    nch = 2 if hostk == "FusionART" else 3
+                    slot = r.randrange(nch)
+                    mods, blocks, dims = [], [], []
+                    for k in range(nch):
+                        if k == slot:
+                            mods.append(m), blocks.append(X), dims.append(X.shape[1])
+                            continue
+                        co = r.choice(["FuzzyART", "FuzzyART", "ART1"])
+                        do = r.randint(1, 2)
+                        so = specs.elem_spec(r, co, do)
+                        if co == "FuzzyART":
+                            so["beta"] = 1.0
+                        Xo = specs.elem_data(r, co, n, do, style=r.choice(["dups", "coarse", "blobs"]))
+                        others[k] = (co, so, Xo, do)
+                        mods.append(make(so)), blocks.append(Xo), dims.append(Xo.shape[1])
+                    gam = [0.5, 0.5] if nch == 2 else [0.25, 0.25, 0.5]
+                    rep.update(slot=slot, channel_dims=dims, gamma_values=gam,
+                               other_channels={str(k): {"spec": v[1], "X": v[2].tolist()} for k, v in others.items()})
+                    est = FusionART(mods, gamma_values=gam, channel_dims=dims) if hostk == "FusionART" else \
+                        FALCON(mods[0], mods[1], mods[2], gamma_values=gam, channel_dims=dims)
+                    net = est if hostk == "FusionART" else est.fusion_art
+                elif hostk == "SimpleARTMAP":
+                    est = SimpleARTMAP(m)
+                    y = gen.labels(r, n, 3)
+                    rep["y"] = y.tolist()
+                elif hostk in ("ARTMAP.A", "ARTMAP.B"):
+                    co = r.choice(["FuzzyART", "FuzzyART", "HypersphereART"])
+                    do = r.randint(1, 2)
+                    so = specs.elem_spec(r, co, do)
+                    Xo = specs.elem_data(r, co, n, do, style=r.choice(["dups", "coarse", "blobs"]))
+                    mo = make(so)
+                    others[0] = (co, so, Xo, do)
+                    rep["other_side"] = {"spec": so, "X": Xo.tolist()}
+                    est = ARTMAP(m, mo) if hostk == "ARTMAP.A" else ARTMAP(mo, m)
+                elif hostk == "DualVigilanceART":
+                    lbs = [t for t in (0.0, 0.125, 0.25, 0.5) if t < spec.get("rho", 0.0)]
+                    if not lbs:
+                        cov.hit("preused:no-lower-vigilance")
+                        continue
+                    rep["rho_lower_bound"] = r.choice(lbs)
+                    est = DualVigilanceART(m, rho_lower_bound=rep["rho_lower_bound"])
+                else:
+                    rep["beta_lower"] = r.choice([b for b in (0.0, 0.5, 1.0) if b <= spec["beta"]])
+                    est = TopoART(m, beta_lower=rep["beta_lower"], tau=1000, phi=1)
+        except Exception as e:
+            cov.hit(f"preused:rejected-at-construction:{tag}:{exc_enum(e)}")
+            continue
+        # ---- train the host
+        sig = {"FusionART": "FusionART.channel/", "FALCON": "FALCON.channel/", "SimpleARTMAP": "SimpleARTMAP/", "ARTMAP.A": "ARTMAP.A/",
+               "ARTMAP.B": "ARTMAP.B/", "DualVigilanceART": "DualVigilanceART/", "TopoART": "TopoART/"}[hostk] + "pre-used-module/"
+        # growth is judged between the host's own batches (whether the host empties the module first is its business)
+        prev, ok = [], True
+        lowered = mode == "MT-" and hostk in ("SimpleARTMAP", "ARTMAP.A")
+        start = 0
+        for b, p in enumerate(parts):
+            sl = slice(start, start + p)
+            start += p
+            try:
+                with quiet():
+                    call = (lambda *a, **kw: est.fit(*a, **kw)) if entry == "fit" else (lambda *a, **kw: est.partial_fit(*a, **kw))
+                    if hostk == "FusionART":
+                        call(np.hstack([blk[sl] for blk in blocks]), match_tracking=mode)
+                    elif hostk == "FALCON":
+                        call(blocks[0][sl], blocks[1][sl], blocks[2][sl])
+                    elif hostk == "SimpleARTMAP":
+                        call(X[sl], y[sl], match_tracking=mode)
+                    elif hostk == "ARTMAP.A":
+                        call(X[sl], others[0][2][sl], match_tracking=mode)
+                    elif hostk == "ARTMAP.B":
+                        call(others[0][2][sl], X[sl], match_tracking=mode)
+                    else:
+                        call(X[sl], match_tracking=mode)
+            except Exception as e:
+                cov.hit(f"preused:rejected-at-training:{tag}:{exc_enum(e)}")
+                ok = False
+                break
+            cur = snap(m)
+            monotone(ctx, cls, prev, cur, dict(rep, batch=b), sig)
+            prev = cur
+            if not lowered:
+                bounds(ctx, cls, m, dict(rep, batch=b), sig, d)
+                cov.hit("preused:size-bound-checked:" + cls)
+        if not ok:
+            continue
+        cov.hit(f"preused:accepted-and-trained:{tag}")
+        cov.hit(f"preused:accepted:{hostk}:{cls}:{entry}")
+        if d_pre != d:
+            cov.hit("preused:accepted-with-a-past-of-another-width:" + hostk)
+        # ---- exact summary: members named by the labels that belong to this module
+        if hostk in ("FusionART", "FALCON"):
+            labels = np.asarray(net.labels_)
+        elif hostk in ("SimpleARTMAP", "ARTMAP.A", "ARTMAP.B"):
+            labels = np.asarray(m.labels_)
+        else:
+            labels = None
+        if labels is not None:
+            if len(labels) == n:
+                exact_summary(ctx, cls, m, np.asarray(X), labels, rep, sig)
+                cov.hit("preused:exact-summary:host-data")
+            elif trained is not None and d_pre == d and len(labels) == len(trained) + n and how in PAST_LABELS_NAME_CATEGORIES:
+                # the host went on from the categories of the past and the labels name the members of both periods
+                exact_summary(ctx, cls, m, np.vstack([trained, X]), labels, rep, sig)
+                cov.hit("preused:exact-summary:past+host-data")
+            else:
+                cov.hit(f"preused:exact-summary-not-applicable:{hostk}:{how}:{entry}")
+        cov.case(("preused", hostk, cls, spec, how, d_pre, rep["X"], mode, parts), len(m.W) < n)
+
+
 def run(ctx):
     cov = ctx.cov
     N = ctx.scale(300, 7000)
@@ -488,5 +709,6 @@ def run(ctx):
         exact_summary(ctx, cb, mb, Yb, np.asarray(mb.labels_), rep, "ARTMAP.B/")
         cov.case(("artmap", sa, sb, rep["X"], rep["y"], mode, parts), len(mb.W) < n or len(ma.W) < n)
         cov.hit(f"artmap-sides:{ca}+{cb}")
+    preused_modules(ctx, nmax)
     e2e.base_histories(ctx, "C02", ctx.scale(150, 3000), ctx.scale(20, 80), fields=("labels", "W"), with_pred=False)
     e2e.sphere_histories(ctx, "C02", ctx.scale(80, 2000), ctx.scale(16, 50))
